@@ -351,7 +351,9 @@ def plan_for(prop, tier, seed):
         P["scenarios"] = scenario_jobs(tier, lambda k: k["api"] in ("for_each", "try_for_each"))
         P["families"] = [fam("runs_exh", shards=12 if T else 6, sample=8 if T else 12, focus="eager"), fam("runs_rand", shards=4, focus="eager"),
                          fam("builder_exh", shards=3, sample=2 if T else 12), fam("wide", shards=3, focus="eager"),
-                         fam("scale", shards=2, focus="types", tag="ty")]
+                         fam("scale", shards=2, focus="types", tag="ty"),
+                         # the quantifier includes stream*(): an idle stream with a startable function (C05's stall, read as eagerness)
+                         fam("stream_exh", shards=6 if T else 3, sample=2 if T else 6), fam("stream_rand", shards=2)]
         P["nontrivial_keys"] = ["idle_eager_nontrivial", "build_data_edge"]
         P["rule"] = "non-trivial = distinct traces with an idle point of an unlimited, unsignalled, failure-free concurrent call with unstarted functions, or a build with data edges"
     elif prop == "C07":
@@ -443,7 +445,7 @@ def plan_for(prop, tier, seed):
     elif prop == "C05":
         P["families"] += plain(runs=False, streams=True)
     elif prop in ("C06", "C07", "C10"):
-        P["families"] += plain({"C06": "eager", "C07": "try", "C10": "limit"}[prop])
+        P["families"] += plain({"C06": "eager", "C07": "try", "C10": "limit"}[prop], streams=prop == "C06")
     elif prop == "C09":
         P["families"] += plain(None)
     elif prop == "C15":
